@@ -197,9 +197,15 @@ type c28Scenario struct {
 	CloseMode int // 0: Close after the emitters finished; 1: Close concurrently with the emitters; 2: two phases separated by a pause long enough for a reconnect, then Close
 	Faults    int
 	MaxConns  int
+	// StartEpoch != 0: the exploration starts from the (reachable) state after StartEpoch-1 reconnections,
+	// with an emitter still holding the id of the first event of the very first connection ("old")
+	StartEpoch int
 }
 
 func c28Want(sc c28Scenario) int {
+	if sc.CloseMode == 2 && sc.StartEpoch != 0 {
+		return 7 // the six calls plus the recorded "old" id
+	}
 	if sc.CloseMode == 2 {
 		return 6
 	}
@@ -220,6 +226,10 @@ func c28Body(sc c28Scenario, w *c28World) func(e *vsched.Exec) {
 			panic(err)
 		}
 		c.dialer = w.dial
+		if sc.StartEpoch != 0 {
+			c.seq.currentEpoch = uint16(sc.StartEpoch)
+			w.emits = append(w.emits, c28Emit{Tag: "old", ID: makeEventID(1, 0), Thread: "history", Conn: -1})
+		}
 		c.start()
 		// wait (visibly) until the first connection is up so that the default schedule delivers events
 		e.Await("await-enabled", func() bool { return c.enabledFlag.Peek() || len(w.notes) > 0 || len(w.conns) >= w.maxConns })
@@ -273,8 +283,12 @@ func c28Body(sc c28Scenario, w *c28World) func(e *vsched.Exec) {
 						pid = em.ID
 					}
 				}
+				ptag := "a1"
+				if sc.StartEpoch != 0 {
+					ptag, pid = "old", makeEventID(1, 0)
+				}
 				id2 := c.EmitFollowup(11, pid, []byte("c2"))
-				rec("emitterC", "c2", "a1", id2)
+				rec("emitterC", "c2", ptag, id2)
 			})
 			wg.Wait()
 		}
@@ -352,6 +366,8 @@ func c28Check(e *vsched.Exec, w *c28World) (out []c28Verdict, class string) {
 		p := byTag[em.Parent]
 		if p.ID == InvalidID || eventIDEpoch(p.ID) != eventIDEpoch(em.ID) {
 			bad("followup-parent-epoch", "", "follow-up %s got id %#x with parent %s id %#x (different connection epoch or invalid parent)", em.Tag, em.ID, p.Tag, p.ID)
+		} else if p.Conn != em.Conn {
+			bad("followup-parent-other-connection", "", "follow-up %s got id %#x on connection %d although its parent %s (id %#x) was handed out on connection %d", em.Tag, em.ID, em.Conn, p.Tag, p.ID, p.Conn)
 		}
 	}
 	delivered := 0
@@ -625,6 +641,8 @@ func TestVerif_C28(t *testing.T) {
 		// payload-shape variants: the defect class they are for needs no particular interleaving
 		{Name: "buf2-lazy-nil-payload", Buffer: 2, CloseMode: 0, Faults: 1, MaxConns: 2, LazyNil: 1, MaxBound: 1},
 		{Name: "buf2-lazy-empty-payload", Buffer: 2, CloseMode: 0, Faults: 1, MaxConns: 2, LazyNil: 2, MaxBound: 1},
+		// the last epoch of the 16-bit space: a lost connection here exhausts the epoch counter
+		{Name: "last-epoch-two-phase", Buffer: 2, CloseMode: 2, Faults: 1, MaxConns: 2, StartEpoch: 0xFFFF, MaxBound: 2},
 	}
 	totalStates := 0
 	for _, md := range modes {
